@@ -12,12 +12,19 @@
    as no superficial loss": the site can no longer fail, in any arithmetic
    (C05_effective_cent_site_cannot_panic), and the old witness is accepted
    (C05_effective_cent_witness_accepted).
-   The property itself is REFUTED for the faithful model (three classes of
+   The all-affiliate assert_eq! of set_latest_post_status (a 28th-digit
+   rounding residue after a split with a non-terminating factor,
+   portfolio_status.rs) was a class too until the fix "compute the
+   all-affiliate share balance with one expression everywhere": the assertion
+   now compares two evaluations of ONE expression on the same inputs, in any
+   arithmetic (C05_status_assertion_cannot_fail), and the old witness is
+   accepted (C05_split_residue_witness_accepted).
+   The property itself is REFUTED for the faithful model (two classes of
    in-range inputs panic, see the witnesses below and known-findings.json);
    "whatever the bytes" for the third-party layers is fuzzing, not proof. *)
 From Coq Require Import List NArith ZArith QArith Qcanon Bool.
 From ACB Require Import Base.Outcome Base.QcExtra Base.Fit Base.Arith Model.Tx Model.Ledger Model.Sfl
-     Model.DeltaList Proofs.C04Inv Proofs.C05Sites Proofs.C04Reject Proofs.C05NoPanic Proofs.C05Dec Proofs.FitProps Proofs.EffCent.
+     Model.DeltaList Proofs.C04Inv Proofs.C05Sites Proofs.C04Reject Proofs.C05NoPanic Proofs.C05Dec Proofs.FitProps Proofs.EffCent Proofs.AllAfter Proofs.C05Assert.
 Import ListNotations.
 
 (* Under exact arithmetic neither assert_eq! of set_latest_post_status can
@@ -96,7 +103,11 @@ Theorem C05_no_run_panics_at_effective_cent : forall (A : arith), C05Dec.sign_ar
   forall init txs ds p,
   run A init txs = (ds, Some (SPanic p)) -> init_ok2 init -> Forall vtx txs ->
   p <> PanicConstraint Site.eff_cent.
-Proof. intros A HA init txs ds p H Hi HV. exact (C05Dec.pclass_not_eff_cent p (C05Dec.run_panic_classes A HA init txs ds p H Hi HV)). Qed.
+Proof.
+  intros A HA init txs ds p H Hi HV.
+  destruct (C05Dec.run_panic_classes_any_init A HA init txs ds p H Hi HV) as [Hp|(-> & _)];
+    [exact (C05Dec.pclass_not_eff_cent p Hp) | discriminate].
+Qed.
 Check C05_no_run_panics_at_effective_cent : forall (A : arith), C05Dec.sign_arith A ->
   forall init txs ds p,
   run A init txs = (ds, Some (SPanic p)) -> init_ok2 init -> Forall vtx txs ->
@@ -127,24 +138,22 @@ Definition w_eff : list tx := [
 (* (2) shares x price x rate above 7.9e28: rust_decimal overflow *)
 Definition w_over : list tx := [
   mk 100 (Buy (q 99999999999 1) (q 99999999999 1) (q 0 1) (q 99999999 1) (q 99999999 1))].
-(* (3) a 1.0-for-3.0 split of 853.2706 shares: set_latest_post_status assertion under rounding only *)
+(* (3) a 1.0-for-3.0 split of 853.2706 shares: panicked at the set_latest_post_status
+   assertion under rounding (portfolio_status.rs) until the fix; now a regression
+   case, see C05_split_residue_witness_accepted *)
 Definition w_split : list tx := [
   mk 100 (Buy (q 8532706 10000) (q 244231 100) (q 0 1) (q 11251 10000) (q 11251 10000));
   mk 160 (Split (q 1 1) (q 3 1) false)].
 
 Theorem C05_refuted :
-  forallb (fun t => valid_tx t && action_in_range (t_act t)) (w_over ++ w_split) = true /\
+  forallb (fun t => valid_tx t && action_in_range (t_act t)) w_over = true /\
   snd (run dec None w_over) = Some (SPanic PanicOverflow) /\
-  snd (run exact None w_over) = None /\
-  snd (run dec None w_split) = Some (SPanic (PanicAssert Site.set_latest_all)) /\
-  snd (run exact None w_split) = None.
+  snd (run exact None w_over) = None.
 Proof. vm_compute. repeat split. Qed.
 Check C05_refuted :
-  forallb (fun t => valid_tx t && action_in_range (t_act t)) (w_over ++ w_split) = true /\
+  forallb (fun t => valid_tx t && action_in_range (t_act t)) w_over = true /\
   snd (run dec None w_over) = Some (SPanic PanicOverflow) /\
-  snd (run exact None w_over) = None /\
-  snd (run dec None w_split) = Some (SPanic (PanicAssert Site.set_latest_all)) /\
-  snd (run exact None w_split) = None.
+  snd (run exact None w_over) = None.
 Print Assumptions C05_refuted.
 
 (* The old effective-cent witness is now accepted, under exact arithmetic and
@@ -189,30 +198,32 @@ Qed.
    For rust_decimal rounding (and any arithmetic whose operators fail only by
    overflow and keep a non-negative result non-negative: [sign_arith]), every
    history of rows that parse (positive / non-negative quantities: vtx), any
-   length, affiliates, order, opening position: a panic of the bookkeeping core
-   is an operator overflow, the
-   all-affiliate assert_eq! of set_latest_post_status (rounding residue), or a
-   strictly positive / negative constrained quantity that ROUNDED TO ZERO at
-   one of eight sites (PosDecimal * PosDecimal, PosDecimal / PosDecimal, the
+   length, affiliates, order, opening position (a decimal value: init_fits): a
+   panic of the bookkeeping core is an operator overflow, or a strictly
+   positive / negative constrained quantity that ROUNDED TO ZERO at one of
+   eight sites (PosDecimal * PosDecimal, PosDecimal / PosDecimal, the
    NegDecimal products and quotient, the two ratio conversions,
-   SflaTxSpecifics::total_amount).  All other 17 panic sites of the modelled
-   core (GreaterEqualZero constructors, division by zero, the registered /
-   cost-base assertions, missing map entries, no-buyers assertion, and since
-   the fix the effective-cent conversion, ...) are unreachable under rounding
-   too.  No hypothesis about affiliates' flags is
-   needed: the sanity check of the row itself establishes what the assertions
-   test. *)
+   SflaTxSpecifics::total_amount).  All other 19 panic sites of the modelled
+   core (GreaterEqualZero constructors - the Buy arm's all-affiliate balance
+   included -, division by zero, BOTH assertions of set_latest_post_status,
+   the registered / cost-base assertions, missing map entries, no-buyers
+   assertion, the effective-cent conversion, ...) are unreachable under
+   rounding too.  (Before the fix "compute the all-affiliate share balance
+   with one expression everywhere" the all-affiliate assert_eq! of
+   set_latest_post_status was a third class: rounding residue.)  No hypothesis
+   about affiliates' flags is needed: the sanity check of the row itself
+   establishes what the assertions test. *)
 Theorem C05_rounded_panic_classes : forall init txs ds p,
   run dec init txs = (ds, Some (SPanic p)) ->
-  init_ok2 init -> Forall vtx txs ->
-  p = PanicOverflow \/ p = PanicAssert Site.set_latest_all \/
+  init_ok2 init -> C05Dec.init_fits dec init -> Forall vtx txs ->
+  p = PanicOverflow \/
   exists s, In s [Site.pos_mul; Site.pos_div; Site.neg_mul; Site.neg_div; Site.neg_mul_pos;
                   Site.ratio_to_pos; Site.af_ratio_pos; Site.sfla_total] /\ p = PanicConstraint s.
 Proof. exact (C05Dec.run_panic_classes dec C05Dec.dec_sign). Qed.
 Check C05_rounded_panic_classes : forall init txs ds p,
   run dec init txs = (ds, Some (SPanic p)) ->
-  init_ok2 init -> Forall vtx txs ->
-  p = PanicOverflow \/ p = PanicAssert Site.set_latest_all \/
+  init_ok2 init -> C05Dec.init_fits dec init -> Forall vtx txs ->
+  p = PanicOverflow \/
   exists s, In s [Site.pos_mul; Site.pos_div; Site.neg_mul; Site.neg_div; Site.neg_mul_pos;
                   Site.ratio_to_pos; Site.af_ratio_pos; Site.sfla_total] /\ p = PanicConstraint s.
 Print Assumptions C05_rounded_panic_classes.
@@ -220,12 +231,135 @@ Print Assumptions C05_rounded_panic_classes.
 (* the same list for every arithmetic of that kind (exact included) *)
 Theorem C05_sign_arith_panic_classes : forall (A : arith), C05Dec.sign_arith A ->
   forall init txs ds p,
-  run A init txs = (ds, Some (SPanic p)) -> init_ok2 init -> Forall vtx txs -> C05Dec.pclass p.
+  run A init txs = (ds, Some (SPanic p)) -> init_ok2 init -> C05Dec.init_fits A init -> Forall vtx txs ->
+  C05Dec.pclass p.
 Proof. exact C05Dec.run_panic_classes. Qed.
 Check C05_sign_arith_panic_classes : forall (A : arith), C05Dec.sign_arith A ->
   forall init txs ds p,
-  run A init txs = (ds, Some (SPanic p)) -> init_ok2 init -> Forall vtx txs -> C05Dec.pclass p.
+  run A init txs = (ds, Some (SPanic p)) -> init_ok2 init -> C05Dec.init_fits A init -> Forall vtx txs ->
+  C05Dec.pclass p.
 Print Assumptions C05_sign_arith_panic_classes.
+
+(* [init_fits]: set_latest_post_status evaluates its expression on the opening
+   position too - (0 - 0) + balance - and compares the result with the balance.
+   No opening position, exact arithmetic, or (rust_decimal) an opening balance
+   that is a decimal value - what the code can hold at all - satisfy it. *)
+Theorem C05_opening_position_fits :
+  (forall A, C05Dec.init_fits A None) /\ (forall init, C05Dec.init_fits exact init) /\
+  (forall init, (forall i, init = Some i -> fit (s_sh i) = Some (s_sh i)) -> C05Dec.init_fits dec init).
+Proof. exact (conj C05Dec.init_fits_none (conj C05Dec.init_fits_exact C05Dec.init_fits_dec)). Qed.
+Check C05_opening_position_fits :
+  (forall A, C05Dec.init_fits A None) /\ (forall init, C05Dec.init_fits exact init) /\
+  (forall init, (forall i, init = Some i -> fit (s_sh i) = Some (s_sh i)) -> C05Dec.init_fits dec init).
+Print Assumptions C05_opening_position_fits.
+
+(* ---- the status-tracker assertion after the fix ----
+   For ANY arithmetic (no hypothesis on the operators): the all-affiliate
+   balance that delta_for_tx wrote into the post status IS the value of the
+   expression set_latest_post_status evaluates - [all_after] on the tracker's
+   latest all-affiliate balance, the affiliate's last share balance (the two
+   fields of the pre status, in every call path: first row of an affiliate,
+   registered affiliates, rows generated for a superficial loss) and the new
+   share balance.  The assertion compares a value with itself; the only panic
+   set_latest_post_status can still raise after a row of delta_for_tx is its
+   OTHER assertion (registered flag against cost base). *)
+Theorem C05_status_assertion_cannot_fail : forall (A : arith) bef t aft st d inj,
+  delta_for_tx A bef t aft st = Ok (d, inj) ->
+  all_after A (ps_all st) (C05Sites.last_sh st (t_af t)) (s_sh (d_post d)) = Ok (s_all (d_post d)) /\
+  forall p, set_latest A st (t_af t) (d_post d) = Panic p -> p = PanicAssert Site.set_latest_acb.
+Proof.
+  intros A bef t aft st d inj H. split; [exact (C05Assert.delta_all_after A _ _ _ _ _ _ H)|].
+  intros p. exact (C05Assert.status_assertion_cannot_fail A _ _ _ _ _ _ p H).
+Qed.
+Check C05_status_assertion_cannot_fail : forall (A : arith) bef t aft st d inj,
+  delta_for_tx A bef t aft st = Ok (d, inj) ->
+  all_after A (ps_all st) (C05Sites.last_sh st (t_af t)) (s_sh (d_post d)) = Ok (s_all (d_post d)) /\
+  forall p, set_latest A st (t_af t) (d_post d) = Panic p -> p = PanicAssert Site.set_latest_acb.
+Print Assumptions C05_status_assertion_cannot_fail.
+
+(* ... and whole runs: no run, in any sign-preserving arithmetic (exact and
+   rust_decimal rounding included), ends in a panic of either assertion of
+   set_latest_post_status or of the Buy arm's conversion of the all-affiliate
+   balance (the unwrap the fix introduced: the sanity check of the row has
+   verified that the other affiliates' shares are not negative) *)
+Theorem C05_no_run_panics_at_status_assertion : forall (A : arith), C05Dec.sign_arith A ->
+  forall init txs ds p,
+  run A init txs = (ds, Some (SPanic p)) -> init_ok2 init -> C05Dec.init_fits A init -> Forall vtx txs ->
+  p <> PanicAssert Site.set_latest_all /\ p <> PanicAssert Site.set_latest_acb /\
+  p <> PanicConstraint Site.buy_all.
+Proof.
+  intros A HA init txs ds p H Hi Hf HV.
+  pose proof (C05Dec.run_panic_classes A HA init txs ds p H Hi Hf HV) as Hp.
+  split; [exact (C05Dec.pclass_not_set_latest_all p Hp)|].
+  split; [|exact (C05Dec.pclass_not_buy_all p Hp)].
+  destruct Hp as [->|(s & _ & ->)]; discriminate.
+Qed.
+Check C05_no_run_panics_at_status_assertion : forall (A : arith), C05Dec.sign_arith A ->
+  forall init txs ds p,
+  run A init txs = (ds, Some (SPanic p)) -> init_ok2 init -> C05Dec.init_fits A init -> Forall vtx txs ->
+  p <> PanicAssert Site.set_latest_all /\ p <> PanicAssert Site.set_latest_acb /\
+  p <> PanicConstraint Site.buy_all.
+Print Assumptions C05_no_run_panics_at_status_assertion.
+
+(* The old witness of the class (1.0-for-3.0 split of 853.2706 shares) and the
+   smallest history of the defect (10 shares, 4-for-3 split, buy 1: the
+   expected balance was 14.333333333333333333333333337) are accepted under
+   rounding: every row is reported, and the all-affiliate balance EQUALS the
+   single affiliate's balance on every row (no residue). *)
+Definition w_43 : list tx := [
+  mk 100 (Buy (q 10 1) (q 1 1) (q 0 1) (q 1 1) (q 1 1));
+  mk 160 (Split (q 4 1) (q 3 1) false);
+  mk 170 (Buy (q 1 1) (q 1 1) (q 0 1) (q 1 1) (q 1 1))].
+Definition obs_bal (A : arith) (w : list tx) :=
+  (snd (run A None w),
+   map (fun d => let s := d_post d in
+                 ((Qnum (this (s_sh s)), Qden (this (s_sh s))), (Qnum (this (s_all s)), Qden (this (s_all s)))))
+       (fst (run A None w))).
+Theorem C05_split_residue_witness_accepted :
+  forallb (fun t => valid_tx t && action_in_range (t_act t)) (w_split ++ w_43) = true /\
+  obs_bal dec w_split =
+    (None, [((4266353, 5000%positive), (4266353, 5000%positive));
+            ((28442353333333333333333333333, 100000000000000000000000000%positive),
+             (28442353333333333333333333333, 100000000000000000000000000%positive))]) /\
+  obs_bal dec w_43 =
+    (None, [((10, 1%positive), (10, 1%positive));
+            ((13333333333333333333333333333, 1000000000000000000000000000%positive),
+             (13333333333333333333333333333, 1000000000000000000000000000%positive));
+            ((14333333333333333333333333333, 1000000000000000000000000000%positive),
+             (14333333333333333333333333333, 1000000000000000000000000000%positive))]) /\
+  snd (run exact None w_split) = None /\ snd (run exact None w_43) = None.
+Proof. vm_compute. repeat split. Qed.
+Check C05_split_residue_witness_accepted :
+  forallb (fun t => valid_tx t && action_in_range (t_act t)) (w_split ++ w_43) = true /\
+  obs_bal dec w_split =
+    (None, [((4266353, 5000%positive), (4266353, 5000%positive));
+            ((28442353333333333333333333333, 100000000000000000000000000%positive),
+             (28442353333333333333333333333, 100000000000000000000000000%positive))]) /\
+  obs_bal dec w_43 =
+    (None, [((10, 1%positive), (10, 1%positive));
+            ((13333333333333333333333333333, 1000000000000000000000000000%positive),
+             (13333333333333333333333333333, 1000000000000000000000000000%positive));
+            ((14333333333333333333333333333, 1000000000000000000000000000%positive),
+             (14333333333333333333333333333, 1000000000000000000000000000%positive))]) /\
+  snd (run exact None w_split) = None /\ snd (run exact None w_43) = None.
+Print Assumptions C05_split_residue_witness_accepted.
+
+(* non-vacuity of C05_status_assertion_cannot_fail: the split row of the old
+   witness is a row of delta_for_tx under rounding (28 significant digits), and
+   the tracker accepts it *)
+Example C05_status_assertion_nonvacuous :
+  match run_loop dec [] {| ps_map := []; ps_all := 0; ps_latest := default_aff |} [hd (mk 0 (Roc 0 0)) w_split] with
+  | ([d], None) =>
+      match delta_for_tx dec [hd (mk 0 (Roc 0 0)) w_split] (nth 1 w_split (mk 0 (Roc 0 0))) []
+              {| ps_map := [(af_id default_aff, d_post d)]; ps_all := s_all (d_post d); ps_latest := default_aff |} with
+      | Ok (d2, _) =>
+          is_ok (set_latest dec {| ps_map := [(af_id default_aff, d_post d)]; ps_all := s_all (d_post d);
+                                   ps_latest := default_aff |} default_aff (d_post d2))
+      | _ => false
+      end
+  | _ => false
+  end = true.
+Proof. vm_compute. reflexivity. Qed.
 
 (* what a failure at such a site means: the exact product of two positive
    quantities is positive, its rust_decimal rounding is exactly 0 *)
@@ -238,7 +372,7 @@ Check C05_strict_site_failure_is_underflow : forall a b p,
   p = PanicOverflow \/ (p = PanicConstraint Site.pos_mul /\ fit (a * b)%Qc = Some 0%Qc).
 Print Assumptions C05_strict_site_failure_is_underflow.
 
-(* (4) fourth class of C05's refutation, found while proving the list above:
+(* (4) the other remaining class of C05's refutation, found while proving the list above:
    a co-holder with 1e-10 shares next to a holder of 9e11 shares buys inside
    the window of a loss of 1e-7: its portion of the denied loss, 1e-7 x 1.1e-22,
    rounds to zero in 28 digits and is unwrapped as a PosDecimal
@@ -262,15 +396,14 @@ Check C05_refuted_underflow :
   snd (run exact None w_under) = None.
 Print Assumptions C05_refuted_underflow.
 
-(* non-vacuity of C05_rounded_panic_classes: the three witnesses meet its
-   hypotheses, panic under rounding, and fall in three different classes *)
+(* non-vacuity of C05_rounded_panic_classes: the two witnesses meet its
+   hypotheses, panic under rounding, and fall in the two classes *)
 Example C05_rounded_hypotheses_hold :
-  init_ok2 None /\ Forall vtx (w_over ++ w_split ++ w_under) /\
+  init_ok2 None /\ C05Dec.init_fits dec None /\ Forall vtx (w_over ++ w_under) /\
   snd (run dec None w_over) = Some (SPanic PanicOverflow) /\
-  snd (run dec None w_split) = Some (SPanic (PanicAssert Site.set_latest_all)) /\
   snd (run dec None w_under) = Some (SPanic (PanicConstraint Site.pos_mul)).
 Proof.
-  split; [intros i E; discriminate E|]. split; [repeat constructor|].
+  split; [intros i E; discriminate E|]. split; [intros i E; discriminate E|]. split; [repeat constructor|].
   vm_compute. repeat split.
 Qed.
 
